@@ -26,7 +26,7 @@ Useful(op) == CASE op.o = "unban_ip" -> Has(bl.bi, op.ip) [] op.o = "permit_ip" 
                 [] op.o = "unban_node" -> Has(bl.bn, op.node) [] op.o = "permit_node" -> op.node \notin bl.pn [] op.o = "unpermit_node" -> op.node \in bl.pn
                 [] op.o = "expect" -> op.ip \notin exp [] op.o = "unexpect" -> op.ip \in exp
                 [] OTHER -> TRUE
-Dgrams == [o : {"dgram"}, ip : IPS, kind : KINDS \cap {"msg"}, node : NODES] \cup [o : {"dgram"}, ip : IPS, kind : KINDS \ {"msg"}, node : {0}]
+Dgrams == [o : {"dgram"}, ip : IPS, kind : KINDS \cap {"msg", "hs"}, node : NODES] \cup [o : {"dgram"}, ip : IPS, kind : KINDS \ {"msg", "hs"}, node : {0}]
 Ops == (IF Len(arr) < MAXARR THEN Dgrams ELSE {})
        \cup (IF cfg.rl THEN {[o |-> "prune"]} ELSE {})
        \cup (IF now < H THEN [o : {"tick"}, d : {1}] ELSE {})
